@@ -149,3 +149,10 @@ Proof.
   - exfalso. apply (Forall_nth_error _ _ _ _ H E). reflexivity.
   - apply nth_error_None in E. lia.
 Qed.
+
+Lemma NoDup_snoc {A} (l : list A) x : NoDup l -> ~ In x l -> NoDup (l ++ [x]).
+Proof.
+  intros H N. apply (Permutation_NoDup (l := x :: l)).
+  - apply Permutation_cons_append.
+  - constructor; assumption.
+Qed.
